@@ -19,7 +19,7 @@ func init() {
 		Explanation: "Decides the registration and selection clauses: (R-KEYSTABLE) in GetOrRegisterKey every update of VariableKeyMap[name] executes only on the not-present edge of the lookup of that same name (an existing assignment is never changed); the in-loop assignment additionally only on the absent edge of a lookup of the assigned key in a set that was filled from every current value of the map (a key is never given to two names); the post-loop assignment of len+1 rests on a pigeonhole step whose loop shape (i from 1 while i <= len, leave at the first free i) is checked; no other function of the package writes a VariableKeyMap except copyConfig into its dst; " +
 			"(R-FETCHGATE) NewCtxFromVars constructs the slice-backed fetcher only under minKey <= maxKey && 0 <= minKey && maxKey < K for the (min,max) = varKeyRange of the same config, varKeyRange computes min and max over all values, the undefined-variable mode takes the map fetcher, SliceVarFetcher.Get/Set/Cached index only under int(key) < len(s), and NewSliceVarFetcher allocates maxKey+1 slots; " +
 			"(R-UNIFY) unifyType has a case for every type the statement lists (int, int8, int16, int32, uint8..uint64, []int, []int32, time.Time, time.Duration) yielding int64 / []int64 built by conversion, .Unix() or division by the constant time.Second, element i from element i, and both fetcher constructors pass every bound value through it; " +
-			"(R-VARNODE) the variable node built by parseVariable carries the token's text as name and VariableKeyMap[that same text] as key, parseUnknownVariable uses UndefinedVarKey, and MapVarFetcher looks up by name / SliceVarFetcher by key. NOT decided: the value read end-to-end under permuted layouts; exhaustion of the int16 key space.",
+			"(R-VARNODE) the variable node built by parseVariable carries the token's text as name and VariableKeyMap[that same text] as key, parseUnknownVariable uses UndefinedVarKey, and MapVarFetcher looks up by name / SliceVarFetcher by key. NOT decided: the value read end-to-end under permuted layouts; exhaustion of the int16 key space. Round 2: R-FETCHGATE — no way into Ctx.VariableFetcher carries the nil interface.",
 		Run:       runC11,
 		Witnesses: append(append(append([]Witness{}, delWitnessesC11...), keySetShapeWitnesses...), c11Witnesses...),
 	})
